@@ -28,10 +28,5 @@ Theorem C11_chain_law :
 Proof. exact chain_law. Qed.
 
 (** the hypotheses are met by a concrete chained run with a re-used operand: (A ∪ B) \ B *)
-Example C11_chain_example :
-  exists R,
-    boolean_operation release 1000 F1_A F1_B Union = Ok R /\ length R = 2%nat /\
-    cert01_run NQ conv_Q release 1000 F1_A F1_B Union = true /\
-    cert02_run NQ conv_Q release 1000 F1_A F1_B Union = true /\
-    cert01_run NQ conv_Q release 1000 R F1_B Difference = true.
+Example C11_chain_example : chain_example_check = true.
 Proof. exact chain_example. Qed.
